@@ -13,10 +13,12 @@
     * `pg_checksum_page(page, blkno)`: the block function over the page with `pd_checksum` (bytes 8..9) set to 0,
       xor `blkno`, then `(checksum % 65535) + 1` — so the result is never 0.
 
-  NOT ESTABLISHED: the 32 constants of `checksumBaseOffsets[]`.  They are not available anywhere in this sandbox
-  (no PostgreSQL source or server headers; searched /usr/include, /usr/share, the Go module cache, /repo), and they are
-  not invented here: the table is a PARAMETER `offs` of every definition below.  Everything stated about the function
-  in Props/C19.lean holds for every table; nothing in the framework computes a concrete PostgreSQL checksum.
+  The 32 constants of `checksumBaseOffsets[]` are the definition `checksumBaseOffsets` below.  No PostgreSQL source is
+  available in this sandbox: the table is WRITTEN FROM MEMORY of checksum_impl.h (it is the table quoted in REVIEW2.md
+  item 7).  Cross-check available here: with this table the empty heap page (`PageInit`: pd_lower 24, pd_upper =
+  pd_special 8192, pd_pagesize_version 0x2004, everything else zero) has `pg_checksum_page` 0x6560 / 0x655F / 0x655D as
+  block 0 / 1 / 7 — the three values two independent reviews computed (REVIEW.md, REVIEW2.md item 7); checked by the
+  `example`s at the end of Proofs/PgChecksum.lean.
 
   Knows nothing about the Go code.  Core only.
 -/
@@ -43,6 +45,13 @@ def words : Bytes → List Nat
   | a :: b :: c :: d :: rest => (a.toNat + 256 * b.toNat + 65536 * c.toNat + 16777216 * d.toNat) :: words rest
   | _ => []
 
+/-- `checksumBaseOffsets[N_SUMS]` of checksum_impl.h (written from memory of that file, see the header comment) -/
+def checksumBaseOffsets : List Nat :=
+  [0x5B1F36E9, 0xB8525960, 0x02AB50AA, 0x1DE66D2A, 0x79FF467A, 0x9BB9F8A3, 0x217E7CD2, 0x83E13D2C,
+   0xF8D4474F, 0xE39EB970, 0x42C6AE16, 0x993216FA, 0x7B093B5D, 0x98DAFF3C, 0xF718902A, 0x0B1C9CDB,
+   0xE58F764B, 0x187636BC, 0x5D7B3BB1, 0xE73DE7DE, 0x92BEC979, 0xCCA6C0B2, 0x304A0979, 0x85AA43D4,
+   0x783125BB, 0x6CA8EAA2, 0xE407EAC6, 0x4B5CFC3E, 0x9FBF8C76, 0x15CA20BE, 0xF2CA9FD3, 0x959BD756]
+
 /-- one round: sum j is mixed with value j (`row` shorter than the sums: the remaining sums are dropped — never the
 case below: rows have exactly 32 words) -/
 def round (sums row : List Nat) : List Nat := List.zipWith comp sums row
@@ -56,18 +65,18 @@ def rows (ws : List Nat) : List (List Nat) := rowsFuel ws.length ws
 
 def zeroRow : List Nat := List.replicate nSums 0
 
-/-- `pg_checksum_block` over the given bytes with the base-offset table `offs` (32 values) -/
-def pgChecksumBlock (offs : List Nat) (page : Bytes) : Nat :=
-  let sums := (rows (words page)).foldl round offs
+/-- `pg_checksum_block` over the given bytes -/
+def pgChecksumBlock (page : Bytes) : Nat :=
+  let sums := (rows (words page)).foldl round checksumBaseOffsets
   let sums := round (round sums zeroRow) zeroRow
   sums.foldl (· ^^^ ·) 0
 
 /-- the page with `pd_checksum` set to zero ("save pd_checksum and temporarily set it to zero") -/
 def clearChecksumField (page : Bytes) : Bytes := page.take 8 ++ [0, 0] ++ page.drop 10
 
-/-- `pg_checksum_page(page, blkno)` for a base-offset table `offs` -/
-def pgChecksumPage (offs : List Nat) (page : Bytes) (blkno : Nat) : Nat :=
-  (pgChecksumBlock offs (clearChecksumField page) ^^^ blkno) % 65535 + 1
+/-- `pg_checksum_page(page, blkno)` -/
+def pgChecksumPage (page : Bytes) (blkno : Nat) : Nat :=
+  (pgChecksumBlock (clearChecksumField page) ^^^ blkno) % 65535 + 1
 
 /-- `pd_upper` (bytes 14..15) -/
 def pdUpper (page : Bytes) : Nat := rd 2 (page.drop 14)
@@ -82,9 +91,9 @@ def allZero (page : Bytes) : Bool := page.all (· == 0)
 (`pd_upper ≠ 0`) is valid exactly when its stored `pd_checksum` equals `pg_checksum_page(block, blkno)`.
 (A block with `pd_upper = 0` that is not all zeros is skipped by pg_checksums and rejected as an invalid page by the
 buffer manager: the Spec gives no verdict for it — `none`.) -/
-def pageVerdict (offs : List Nat) (page : Bytes) (blkno : Nat) : Option Bool :=
+def pageVerdict (page : Bytes) (blkno : Nat) : Option Bool :=
   if allZero page then some true
   else if pdUpper page = 0 then none
-  else some (pdChecksum page == pgChecksumPage offs page blkno)
+  else some (pdChecksum page == pgChecksumPage page blkno)
 
 end PgVerif.Spec.PgChecksum
